@@ -327,6 +327,19 @@ func main() {
 				mu.Unlock()
 				start := time.Now()
 				results[i], ch = ch.run(cases[i], time.Duration(t)*time.Millisecond)
+				if results[i].Got.Err == "hang" && cases[i].Tmo == 0 && t < capMs {
+					// an unexpected hang under the adaptive timeout may be a load spike: one retry with a longer one
+					t2 := 3 * t
+					if t2 < 15000 {
+						t2 = 15000
+					}
+					if t2 > capMs {
+						t2 = capMs
+					}
+					cases[i].Got = nil
+					start = time.Now()
+					results[i], ch = ch.run(cases[i], time.Duration(t2)*time.Millisecond)
+				}
 				mu.Lock()
 				if e := results[i].Got.Err; e == "hang" || e == "crash" {
 					hangs++
